@@ -138,28 +138,53 @@ pub fn c18_unit() -> Unit {
             let file = elf_with_code(&code, exit_off, 0x400, 0);
             let path = scratch(&format!("sock{}", chunk));
             let _ = std::fs::write(&path, &file);
-            let port = 31000 + ((std::process::id() as u64 * 13 + chunk * 977) % 20000);
-            let child = std::process::Command::new(&bin)
-                .args(["-e", path.to_str().unwrap_or(""), "-s", "-w", "-p", &port.to_string(), "--log", "off"])
-                .env("RUST_BACKTRACE", "0")
-                .stdout(std::process::Stdio::piped())
-                .stderr(std::process::Stdio::piped())
-                .spawn();
-            let mut child = match child {
-                Ok(c) => c,
-                Err(e) => {
-                    ctx.machinery(format!("cannot start the binary: {}", e));
+            // start the binary and connect; a busy port makes the binary give up at once, so try a few ports
+            let mut started: Option<(std::process::Child, std::net::TcpStream)> = None;
+            for attempt in 0..5u64 {
+                let port = 31000 + ((std::process::id() as u64 * 13 + chunk * 977 + attempt * 3331) % 20000);
+                let child = std::process::Command::new(&bin)
+                    .args(["-e", path.to_str().unwrap_or(""), "-s", "-w", "-p", &port.to_string(), "--log", "off"])
+                    .env("RUST_BACKTRACE", "0")
+                    .stdout(std::process::Stdio::piped())
+                    .stderr(std::process::Stdio::piped())
+                    .spawn();
+                let mut child = match child {
+                    Ok(c) => c,
+                    Err(e) => {
+                        ctx.machinery(format!("cannot start the binary: {}", e));
+                        return;
+                    }
+                };
+                let mut conn = None;
+                for _ in 0..600 {
+                    if let Ok(s) = std::net::TcpStream::connect(("127.0.0.1", port as u16)) {
+                        conn = Some(s);
+                        break;
+                    }
+                    if let Ok(Some(_)) = child.try_wait() {
+                        break; // the binary ended already (port in use)
+                    }
+                    std::thread::sleep(std::time::Duration::from_millis(10));
+                }
+                match conn {
+                    Some(s) => {
+                        started = Some((child, s));
+                        break;
+                    }
+                    None => {
+                        let _ = child.kill();
+                        let _ = child.wait();
+                    }
+                }
+            }
+            let (mut child, stream) = match started {
+                Some((c, s)) => (c, Some(s)),
+                None => {
+                    let _ = std::fs::remove_file(&path);
+                    ctx.machinery("could not connect to the emulator's control socket on five ports".into());
                     return;
                 }
             };
-            let mut stream = None;
-            for _ in 0..600 {
-                if let Ok(s) = std::net::TcpStream::connect(("127.0.0.1", port as u16)) {
-                    stream = Some(s);
-                    break;
-                }
-                std::thread::sleep(std::time::Duration::from_millis(10));
-            }
             let mut verdict: Option<String> = None;
             let mode = chunk; // 0: one write per batch, 1: one write per line, 2: one write per byte
             if let Some(mut s) = stream {
